@@ -22,7 +22,78 @@ import mut
 from mut import World, Run, NotLive, CallbackFault, EMODEL, OP_RECURSION_LIMIT, execute, first  # noqa: F401
 
 
-def replay(hist, oracles=("wf",), pre=None, post=None, keep_world=False) -> Run:
+import contextlib
+import signal
+
+
+class OpTimeout(Exception):
+    """an operation / query did not come back: the node graph has a cycle the library walks for ever"""
+
+
+@contextlib.contextmanager
+def time_limit(seconds=3.0):
+    """SIGALRM watchdog (main thread only; a no-op elsewhere): a corrupted graph must not hang the check"""
+    def handler(signum, frame):
+        raise OpTimeout()
+    try:
+        old = signal.signal(signal.SIGALRM, handler)
+    except ValueError:
+        yield
+        return
+    signal.setitimer(signal.ITIMER_REAL, seconds)
+    try:
+        yield
+    finally:
+        signal.setitimer(signal.ITIMER_REAL, 0)
+        signal.signal(signal.SIGALRM, old)
+
+
+def sprinkle_queries(w, limit=40):
+    try:
+        with time_limit(5.0):
+            _sprinkle_queries(w, limit)
+    except OpTimeout:
+        pass
+
+
+def _sprinkle_queries(w, limit=40):
+    """Read-only queries on every tree BETWEEN the mutations of a history (answers are not judged here): whatever
+    the library caches or memoises is filled by queries, so a mutator that forgets to reset it only shows when the
+    same tree object was queried before.  depth / calc_depth / calc_height / is_descendant_of / is_ancestor_of /
+    get_index / siblings / count_descendants / get_path / find / format / iteration / len / to_dict_list."""
+    for t in w.trees:
+        try:
+            nodes = reach(t)[:limit]
+            for i, n in enumerate(nodes):
+                for name in ("depth", "calc_depth", "calc_height", "get_index", "count_descendants", "is_clone", "is_top", "is_leaf",
+                             "first_sibling", "last_sibling", "prev_sibling", "next_sibling", "get_parent_list", "get_path",
+                             "get_top", "has_children", "is_first_sibling", "is_last_sibling"):
+                    try:
+                        getattr(n, name)()
+                    except Exception:
+                        pass
+                for m in (nodes[0], nodes[-1], nodes[(i * 7 + 3) % len(nodes)], n._parent):
+                    try:
+                        n.is_descendant_of(m)
+                        m.is_ancestor_of(n)
+                    except Exception:
+                        pass
+                try:
+                    t.find(n._data)
+                    t.find(data_id=n._data_id)
+                except Exception:
+                    pass
+            for f in (lambda: t.format(), lambda: t.calc_height(), lambda: len(t), lambda: list(t), lambda: t.to_dict_list(),
+                      lambda: t.count_unique, lambda: t.first_child(), lambda: t.last_child(), lambda: t.format(repr="{node.data}")):
+                try:
+                    f()
+                except Exception:
+                    pass
+        except Exception:
+            pass
+
+
+def replay(hist, oracles=("wf",), pre=None, post=None, keep_world=False, queries=True) -> Run:
     """see the module docstring.  One extra history entry is understood here (not by mut.execute):
 
         ["iter_remove", ti, DID]     for n in tree.find_all(data_id=DID): n.remove()
@@ -34,6 +105,25 @@ def replay(hist, oracles=("wf",), pre=None, post=None, keep_world=False) -> Run:
     w = World(hist["univ"])
     run = Run()
     state = {"before": w.obs()}
+
+    def _judge(si, step, ctx):
+        for name in oracles:
+            msg = None
+            if name == "wf":
+                msg = first(mut.wf_oracle(t, w) for t in w.trees)
+            elif name == "index":
+                msg = first(mut.index_oracle(t, w) for t in w.trees)
+            elif name == "sibling":
+                msg = first(mut.sibling_oracle(t, w) for t in w.trees)
+            elif name == "refusal":
+                msg = mut.refusal_oracle(step)
+            elif name == "effect":
+                msg = mut.effect_oracle(step, w)
+            if msg:
+                run.fails.append((si, name, msg))
+        if post is not None:
+            for name, msg in post(w, si, step, ctx) or []:
+                run.fails.append((si, name, msg))
 
     def do_step(op):
         si = len(run.steps)
@@ -58,8 +148,9 @@ def replay(hist, oracles=("wf",), pre=None, post=None, keep_world=False) -> Run:
         _old = sys.getrecursionlimit()
         sys.setrecursionlimit(OP_RECURSION_LIMIT)
         try:
-            res = [0, thunk()]
-        except RecursionError:
+            with time_limit(5.0):
+                res = [0, thunk()]
+        except (RecursionError, OpTimeout):
             res = [1, 8]
         except Exception as e:  # every op's own failure is an observation
             res = [1, H.err_class(e)]
@@ -74,23 +165,13 @@ def replay(hist, oracles=("wf",), pre=None, post=None, keep_world=False) -> Run:
         run.steps.append(step)
         kind = op[0] + (":" + H.ERR_NAMES.get(res[1], str(res[1])) if res[0] else "")
         run.stats[kind] = run.stats.get(kind, 0) + 1
-        for name in oracles:
-            msg = None
-            if name == "wf":
-                msg = first(mut.wf_oracle(t, w) for t in w.trees)
-            elif name == "index":
-                msg = first(mut.index_oracle(t, w) for t in w.trees)
-            elif name == "sibling":
-                msg = first(mut.sibling_oracle(t, w) for t in w.trees)
-            elif name == "refusal":
-                msg = mut.refusal_oracle(step)
-            elif name == "effect":
-                msg = mut.effect_oracle(step, w)
-            if msg:
-                run.fails.append((si, name, msg))
-        if post is not None:
-            for name, msg in post(w, si, step, ctx) or []:
-                run.fails.append((si, name, msg))
+        try:
+            with time_limit(20.0):
+                _judge(si, step, ctx)
+        except OpTimeout:
+            run.fails.append((si, "wf", "wf: an oracle / observation did not terminate (cycle in the node graph)"))
+        if queries:
+            sprinkle_queries(w)
         state["before"] = after
 
     for op in hist["ops"]:
@@ -220,3 +301,14 @@ def safe_obs(obs):
         return obs
     except RecursionError:
         return [-3]
+
+
+def safe_shrink_candidates(hist, seconds=30.0):
+    """mut.shrink_candidates, materialised under the watchdog (it replays the history with mut.replay, which has none:
+    on a corrupted implementation an op on a node inside a cycle may never return)"""
+    try:
+        with time_limit(seconds):
+            cands = list(mut.shrink_candidates(hist))
+    except (OpTimeout, Exception):
+        cands = []
+    return cands
